@@ -100,8 +100,17 @@ impl<C: Context> Writable<C> for Parameter {
     let length = self.value.len();
     let pad = if length % 4 != 0 { 4 - (length % 4) } else { 0 };
 
+    // The length field has 16 bits. Refuse a longer value instead of writing
+    // a wrapped-around length, which would corrupt the rest of the list.
+    let padded_length = u16::try_from(length + pad).map_err(|_| {
+      speedy::Error::custom(format!(
+        "Parameter {:?}: value of {} bytes does not fit the 16-bit length field.",
+        self.parameter_id, length
+      ))
+    })?;
+
     writer.write_value(&self.parameter_id)?;
-    writer.write_u16((length + pad) as u16)?;
+    writer.write_u16(padded_length)?;
     writer.write_bytes(&self.value)?;
 
     for _ in 0..pad {
